@@ -52,8 +52,10 @@ Definition lb_base_path (t : file_type) (i : id) : path :=
 Definition lb_filename (t : file_type) (i : id) : name :=
   match t with Config => lb_config_name | _ => to_hex i end.
 Definition lb_path (t : file_type) (i : id) : path := lb_base_path t i ++ [lb_filename t i].
+(* the temporary file: <parent>[/<lb_tmp_dir>]/<final name><lb_tmp_suffix>; both parts are
+   regenerated from write_bytes (today: no sub-directory, suffix "-tmp-") *)
 Definition lb_tmp_path (t : file_type) (i : id) : path :=
-  lb_base_path t i ++ [lb_filename t i ++ lb_tmp_suffix].
+  lb_base_path t i ++ lb_tmp_dir ++ [lb_filename t i ++ lb_tmp_suffix].
 
 (* OpenDALBackend::path *)
 Definition od_path (t : file_type) (i : id) : path :=
@@ -191,6 +193,38 @@ Definition lb_remove (f : fs) (t : file_type) (i : id) : fs * res unit :=
   end.
 Definition od_remove (f : fs) (t : file_type) (i : id) : fs * res unit :=
   (fs_del f (od_path t i), Ok tt).
+
+(* the adapter, statement by statement: write_bytes = drop empty chunks; operator.write(path)
+   - one put, no look at the previous state, no early exit; remove = operator.delete(path);
+   read_full = operator.read(path); read_partial = operator.read_options(path, range);
+   list = [Config: return exists("config")] lister(<dirname>/, recursive) filtered by
+   is_file + Id::parse_some (the `return None` of the filter); list_with_size likewise with stat.
+   Props.opendal_calls_as_modelled compares this table with the one regenerated from the source. *)
+Definition modelled_od_calls (f : odfn) : list odcall :=
+  match f with
+  | FWrite => [OcFilterEmpty; OcWrite]
+  | FRemove => [OcDelete]
+  | FReadFull => [OcRead]
+  | FReadPartial => [OcReadOptions]
+  | FList => [OcEarlyReturn; OcExists; OcLister; OcEarlyReturn]
+  | FSizes => [OcEarlyReturn; OcStat; OcLister; OcEarlyReturn]
+  end.
+(* the directory backend's other methods, statement by statement: read_full = fs::read(path);
+   read_partial = File::open; seek(Start(off)); read_exact(len bytes); list = [Config: return
+   exists] WalkDir(<dirname>) keeping is_file entries whose name Id::parse_some accepts;
+   list_with_size likewise with the metadata length; remove = fs::remove_file (+ the optional
+   post-delete command).  Props.local_calls_as_modelled compares with the regenerated table. *)
+Definition modelled_lb_calls (f : lbfn) : list lbcall :=
+  match f with
+  | LReadFull => [LcFsRead]
+  | LReadPartial => [LcFileOpen; LcSeek; LcReadExact]
+  | LList => [LcReturn; LcExists; LcWalkDir; LcIsFile; LcReturn; LcParseSome]
+  | LSizes => [LcExists; LcReturn; LcMetadata; LcReturn; LcWalkDir; LcIsFile; LcReturn; LcParseSome; LcMetadata]
+  | LRemove => [LcRemoveFile; LcCommand]
+  end.
+(* layers that hand every request and every answer through unchanged (retry repeats a failed
+   request, throttle delays, concurrent-limit queues, logging logs): taken as a fact about opendal *)
+Definition passthrough (l : odlayer) : bool := match l with LOther => false | _ => true end.
 
 (* ---------- operations ---------- *)
 Inductive flavour := Local | OpenDAL.
